@@ -305,6 +305,11 @@ class TermRule(BaseRule):
             # a list built by a comprehension and then appended to: list(<its elements>, x)
             first = T("rep", elts[0], elts[1]) if len(elts) == 2 else T("star", recv.sym)
             op, elts = ("list" if op == "listcomp" else "set"), (first,)
+        if f.attr == "insert" and op == "list" and len(pos) == 2 and pos[0].kind == "const" and pos[0].val == 0 and not st.ts.get("loops", ()):
+            # xs.insert(0, x): x becomes the first element
+            s = st.copy()
+            s.env[it.var(f.value.id)] = tv(T(op, term_of(pos[1]), *elts), none=False, truth=True)
+            return [Out("normal", s, const(None))]
         kind = {"append": "list", "extend": "list", "add": "set", "update": "set"}.get(f.attr)
         if op != kind or len(pos) != 1:
             return None
@@ -426,6 +431,17 @@ class TermRule(BaseRule):
         return outs
 
     def call(self, it, st, node, recv, pos, kw):
+        f0 = node.func
+        if isinstance(f0, ast.Name) and it.self_cls and not getattr(node, "_sa_alias_call", False):
+            v0 = st.env.get(it.var(f0.id))
+            if v0 is not None and v0.kind == "unk" and v0.sym and v0.sym.startswith("self.") and v0.sym[5:].isidentifier() and it.m.find_method(it.self_cls, v0.sym[5:]) is not None:
+                # m = self.method ... m(x)  is  self.method(x): evaluated as that call (once: the synthesized node is marked)
+                fake = ast.Call(func=ast.Attribute(value=ast.Name(id="self", ctx=ast.Load()), attr=v0.sym[5:], ctx=ast.Load()), args=node.args, keywords=node.keywords)
+                ast.copy_location(fake, node)
+                ast.fix_missing_locations(fake)
+                fake._sa_alias_call = True
+                vals_, raises_ = it.eval_call(st, fake)
+                return [Out("normal", s_, a_) for s_, a_ in vals_] + list(raises_)
         try:
             pos, kw = self._canon_args(it, node, recv, it.resolve_callee(node, recv), pos, kw)  # hooks of every term rule see canonical arguments
         except Exception:
@@ -504,6 +520,11 @@ def norm(t: str) -> str:
     if op is None or op == "const":
         return t
     nargs = [norm(a) for a in args]
+    if op in ("min", "max") and len(nargs) == 1 and destruct(nargs[0])[0] in ("list", "tuple") and destruct(nargs[0])[1] \
+            and not any(destruct(x_)[0] in ("star", "rep") for x_ in destruct(nargs[0])[1]):
+        nargs = list(destruct(nargs[0])[1])  # min([a, b]) is min(a, b)
+        if len(nargs) == 1:
+            return nargs[0]
     if op in ("min", "max"):
         flat = []
         for a in nargs:
